@@ -80,3 +80,23 @@ class debug_logging:
         self._lg.propagate = self._old[1]
         logging.disable(logging.CRITICAL)
         return False
+
+
+class strict_warnings:
+    """Context manager: the host process runs with warnings raised as errors (python -W error, PYTHONWARNINGS=error, a test
+    runner's filterwarnings=error) - limited to warnings attributed to the library's own modules, so the harness and its
+    dependencies are unaffected."""
+
+    def __init__(self, on: bool = True) -> None:
+        self.on = on
+
+    def __enter__(self):
+        import warnings
+        self._cm = warnings.catch_warnings()
+        self._cm.__enter__()
+        if self.on:
+            warnings.filterwarnings("error", module=r"msmart(\.|$)")
+        return self
+
+    def __exit__(self, *exc):
+        return self._cm.__exit__(*exc)
